@@ -40,6 +40,8 @@ class Worker:
         import time as _t
 
         timeout = timeout or float(os.environ.get("PV_NATIVE_TIMEOUT", "240"))
+        if os.environ.get("PV_TIER") == "thorough":
+            timeout *= 6  # thorough jobs carry many more cases each
         try:  # wall-clock limits are stretched on a busy machine (same rule as pv.report)
             timeout *= min(4.0, max(1.0, os.getloadavg()[0] / (0.6 * (os.cpu_count() or 16))))
         except OSError:
